@@ -365,6 +365,30 @@ func c15Run[T any](c *c15ctx, v, pre, otherVal T, plain any, hasPlain bool, isOp
 			return
 		}
 	}
+	// ---- a record as json.Encoder writes it (value + "\n"), handed straight to the target's own UnmarshalJSON by a
+	// reader that splits its log into lines: trailing whitespace is part of a valid JSON text
+	if _, ok := any(&pre).(json.Unmarshaler); ok {
+		ffPre := pre
+		if c.freshFF {
+			var zero T
+			ffPre = zero
+		}
+		line := append(append([]byte(nil), rec...), '\n')
+		got, err, pan := c15Decode(c, line, ffPre, false, chunks, c15Direct)
+		r.Probe("encoder-written-lines-decoded-directly")
+		if pan != nil {
+			r.Violate("decode-panic:"+c.name, "%s: UnmarshalJSON(%q) panicked: %v", c.name, line, pan)
+			return
+		}
+		if err != nil {
+			r.Violate("roundtrip-error:"+c.name, "%s: UnmarshalJSON of the intact record followed by a newline (%q, as json.Encoder writes it) failed: %v", c.name, line, err)
+			return
+		}
+		if !reflect.DeepEqual(got, v) {
+			r.Violate("roundtrip-mismatch:"+c.name, "%s: UnmarshalJSON(%q) (the record as json.Encoder writes it) gives %s, original %s", c.name, line, c15Dump(got), c15Dump(v))
+			return
+		}
+	}
 	// ---- a nil target pointer handed to the type's own UnmarshalJSON is a programming error of the caller, not of the
 	// bytes: it must not panic ("decoding arbitrary bytes never panics")
 	if _, ok := any(&pre).(json.Unmarshaler); ok {
@@ -551,7 +575,7 @@ func execC15(r *sim.Run) {
 		raw := json.RawMessage(raws[i2%len(raws)])
 		v := c15Opt(r, def, raw)
 		c15Run(c, v, c15Opt(r, preDef, json.RawMessage(`"pre"`)), c15Opt(r, true, json.RawMessage(`0`)), any(raw), def, true)
-	case 21, 22, 23, 24, 25, 26, 27:
+	case 21, 22, 23, 24, 25, 26, 27, 28:
 		c15Fixture(c, kind-21, s1, s2, i1, i3, preDef)
 	default:
 		c.name = "*Option[int] inside struct pointer"
